@@ -285,6 +285,7 @@ def judgeLine (line : String) : String :=
   match lhs with
   | "cl" :: _gcls :: _bdef :: n :: pts => judgeClosures n pts rhs
   | "tw" :: gcls :: adef :: bdef :: _a2 :: _b2 :: n :: pts => judgePair "tw" gcls adef bdef n pts rhs
+  | "il" :: gcls :: adef :: _b1 :: b2def :: n :: pts => judgePair "il" gcls adef b2def n pts rhs
   | kind :: gcls :: adef :: bdef :: n :: pts => judgePair kind gcls adef bdef n pts rhs
   | _ => "BAD line"
 where
@@ -303,7 +304,7 @@ where
         match parseSR r with
         | some (b, "T" :: nab :: nba :: "H" :: hist :: "R" :: r) =>
           let (twSuffix, twDiffs) := if _kind == "tw" then judgeTwin a b r else ("", [])
-          let cls := twSuffix ++ classOf a b ++ (if _kind == "cc" then "-concurrent" else "")
+          let cls := (if _kind == "il" then "interleaved-" else "") ++ twSuffix ++ classOf a b ++ (if _kind == "cc" then "-concurrent" else "")
           match parsePositions (n.toNat?.getD 0) pts with
           | none => "BAD positions"
           | some ps =>
@@ -315,7 +316,9 @@ where
               let expl := vs.filterMap fun v => match v.spec with | some (w, true) => some w | _ => none
               -- the reused transformers' answers must be those of transformers built fresh per call
               let diffs := (vs.filterMap fun v => v.diff) ++
-                (if hist == "1" then ["history-dependent reused-transformer-answer-differs-from-fresh-transformer"] else []) ++ twDiffs
+                (if hist == "1" then [if _kind == "il"
+                  then "history-dependent answers-of-a-transformer-pair-used-in-turn-with-another-system-differ-from-its-answers-alone"
+                  else "history-dependent reused-transformer-answer-differs-from-fresh-transformer"] else []) ++ twDiffs
               -- an unexplained violation outranks a correspondence difference, which outranks a
               -- violation that a recorded finding explains (so that a finding never hides a change)
               match unexpl, diffs, expl, wgsCheck a adef with
